@@ -12,3 +12,7 @@ open Nitime.C07.Props
 #print axioms concentration_is_rayleigh
 #print axioms interpRescale_unit
 #print axioms lowBias_spec
+#print axioms fixSigns_gram
+#print axioms fixSigns_residual
+#print axioms concentration_unit_interval
+#print axioms inverse_iteration_step
